@@ -204,7 +204,7 @@ def tstr(t, depth: int = 0) -> str:
     if k == "lam":
         return f"<closure {t[1]}>"
     if k == "fstr":
-        return "f'" + "".join(x[1] if x[0] == "c" else "{" + tstr(x, d) + "}" for x in t[1:]) + "'"
+        return "f'" + "".join(str(x[1]) if x[0] == "c" else "{" + tstr(x, d) + "}" for x in t[1:]) + "'"
     if k == "loopvar":
         return f"<{t[1]} after loop>"
     if k == "unk":
